@@ -1,16 +1,18 @@
 (* Dispatcher from property number to the correspondence entry point of its model. *)
 From Coq Require Import List ZArith.
-From GP Require Import Base.Val Base.GoStrings Model.Secure Model.Negotiate Model.Handshake Model.Stderr Model.Env Model.Stdio Model.MuxBroker Model.MuxTimed Model.Serve Model.ClientOps Model.Kill Model.Reattach Model.Tls Model.Interop Model.Resources Model.Conc Model.Crash Model.Params Generated.
+From GP Require Import Base.Val Base.GoStrings Model.Secure Model.Negotiate Model.Handshake Model.Stderr Model.Env Model.Stdio Model.MuxBroker Model.MuxTimed Model.Serve Model.ClientOps Model.Kill Model.Reattach Model.Tls Model.Interop Model.Resources Model.Conc Model.Crash Model.StartFail Model.LaunchOpts Model.Params Generated.
 
 Definition check_prop (p : Z) (inp obs : V) : verdict :=
   match p with
   | 13%Z => check_secure inp obs
   | 3%Z => check_crash gen_crash_params inp obs
+  | 105%Z => check_startfail gen_sf_params inp obs
   | 106%Z => check_storm inp obs
   | 119%Z => check_startstorm inp obs
   | 18%Z => check_leftovers gen_res_params inp obs
   | 20%Z => check_conc nextid_atomic inp obs
   | 14%Z => check_interop inp obs
+  | 114%Z => check_conflict gen_lo_params inp obs
   | 12%Z => check_mtls gen_tls_params inp obs
   | 15%Z => check_reattach inp obs
   | 4%Z => check_kill gen_kill_params inp obs
